@@ -2,6 +2,7 @@
 From Coq Require Import List String ZArith Bool.
 From GG Require Import Base.Strs Model.Config Model.GoTypes Model.GoAst Model.Annots Model.Analyze Exec
                        Proofs.WalkProofs Proofs.CheckerProofs Properties.C01.
+From GG Require Proofs.DiagProofs Proofs.WholeProofs.
 Import ListNotations.
 Local Open Scope Z_scope.
 Local Open Scope string_scope.
@@ -91,6 +92,19 @@ Example C03_nonvacuous :
   run (ex_tfile "a_test.go") (fun _ _ => false) = [].
 Proof. vm_compute. repeat split; reflexivity. Qed.
 
+(* END TO END: in the result of the whole per-package analysis the diagnostics with a TONL code are exactly the output of this
+   checker under the facts (own annotations, then those of the direct imports) and the suppression (the package's @ignore
+   comments, exclude-checks) that the analysis assembles itself; the theorems above characterise that output *)
+Theorem C03_whole_analysis :
+  forall cfg p all own ds, x_analyze cfg p all = AOk own ds ->
+    exists ops, x_ignore_ops cfg p = Some ops /\ own = x_read_all cfg p /\
+      forall d, In (d_code d) DiagProofs.TONL_CODES -> (In d ds <-> In d (x_tonl cfg p (x_facts p own all) (x_suppressed ops))).
+Proof.
+  intros cfg p all own ds Hres.
+  destruct (WholeProofs.section_of_code cfg p all own ds Hres) as (ops & Ho & Hown & Hsec). exists ops. split; [exact Ho|]. split; [exact Hown|].
+  intros d Hc. destruct (Hsec d) as (_ & _ & _ & Hx & _). apply Hx. exact Hc.
+Qed.
+
 Print Assumptions C03_file.
 Print Assumptions C03_first_unsuppressed_use.
 Print Assumptions C03_walk.
@@ -100,3 +114,4 @@ Print Assumptions C03_name_sharing_never.
 Print Assumptions C03_func_index.
 Print Assumptions C03_type_index.
 Print Assumptions C03_method_index.
+Print Assumptions C03_whole_analysis.
